@@ -43,11 +43,26 @@ def sig_of_stderr(err):
     return "unknown"
 
 
+OPENERS = ["(", "[", "{ 'p ", "<", "rec x ", "'p ", "< status = ", "f ( ", "/ { 'v "]
+CLOSERS = {"(": ")", "[": "]", "{ 'p ": " }", "<": ">", "rec x ": "", "'p ": "", "< status = ": " >", "f ( ": " )", "/ { 'v ": " }"}
+
+
 def nests(rng, depth):
-    o = rng.choice(["(", "[", "{ 'p ", "<", "rec x ", "'p "])
-    c = {"(": ")", "[": "]", "{ 'p ": " }", "<": ">", "rec x ": "", "'p ": ""}[o]
+    o = rng.choice(OPENERS)
     inner = rng.choice(["num", "{}", "x", "1", ""])
-    return "let a = " + o * depth + inner + c * depth + ";\n"
+    return "let a = " + o * depth + inner + CLOSERS[o] * depth + ";\n"
+
+
+def all_nests(depths):
+    """every opener x every innermost part (well-formed ones and the ill-formed ones: innermost part missing, a stray token,
+    the closers missing) at every depth: the error, if any, sits at the bottom of the nest"""
+    out = []
+    for d in depths:
+        for o in OPENERS:
+            for inner in ["num", "", ")", "x"]:
+                out.append("let a = " + o * d + inner + CLOSERS[o] * d + ";\nres / on get -> <a>;\n")
+            out.append("let a = " + o * d + "num" + ";\n")                    # closers missing
+    return out
 
 
 WRAP = ["'p %s", "[%s]", "{ 'p %s }", "{ %s }", "<%s>", "%s ?", "%s !", "%s & {}", "%s | num", "%s ~ num", "%s :: <>", "rec x %s",
@@ -211,6 +226,7 @@ def run(tier):
     muts = list(dict.fromkeys(mutate_text(rng, rng.choice(small)) for _ in range(800 if q else 30000)))
     rnd = list(dict.fromkeys(random_text(rng) for _ in range(800 if q else 30000)))
     deep = [nests(rng, d) for d in ([1, 5, 20, 50, 100, 150, 200] if q else list(range(1, 201, 7))) for _ in range(2 if q else 4)]
+    deep += all_nests([3, 6, 9, 12, 40] if q else [2, 3, 4, 5, 6, 7, 8, 9, 10, 12, 16, 24, 40, 80, 160])
     extreme = ["let a = 12345678901234567890123;", "let a = 18446744073709551616;", "let a = 18446744073709551615;", "let a = \"\";",
                "'", "@", "let @ = 1;", "let a = ' ;", "#", "`", "``", "/*", "/**/", "//", "\"", "let a = 999XX;", "let a = 6XX;", "res /%;",
                "﻿", "\u0000", "let a = <status=0, {}>;", "res / on get -> <status=18446744073709551615, {}>;", "use \"\";", "use \"::\";",
